@@ -49,6 +49,29 @@ def rdMut : Rd Pred.C20.Mut := do
   | 5 => if a < 256 then pure (.delExt a.toUInt8) else Rd.fail
   | _ => Rd.fail
 
+/-- The observation with what C20's text does not speak of overwritten by the expected values, so
+    that `Pred.C20.pred` ignores it:
+    * `clonePO`, `hPO` — the deprecated `Header.PayloadOffset` ("to be removed" in packet.go; a
+      by-product of Unmarshal, not one of the header fields of C01's "every header field");
+    * `cloneNils`, `hNils` — whether an EMPTY slice (CSRC, payload, `Extensions`, an extension
+      element's value) is nil or not: a zero-length value is the same value either way.
+    All four are still compared with the model (correspondence). -/
+def c20canon (x : Pred.C20.Input) (o : Pred.C20.Obs) : Pred.C20.Obs :=
+  { o with clonePO := x.po, hPO := x.po, cloneNils := x.nils, hNils := { x.nils with payload := false } }
+
+/-- C20 as worded: equal in all header fields, extensions, payload and padding size; no shared
+    memory; the untouched side unchanged by a mutation of the other -/
+def c20predR (x : Pred.C20.Input) (o : Pred.C20.Obs) : Bool := Pred.C20.pred x (c20canon x o)
+
+theorem c20predR_of_pred (x : Pred.C20.Input) (o : Pred.C20.Obs) :
+    Pred.C20.pred x o = true → c20predR x o = true := by
+  intro h
+  simp only [Pred.C20.pred, Pred.C20.equal, Pred.C20.disjoint, Pred.C20.independent,
+    Bool.and_eq_true] at h
+  simp only [c20predR, c20canon, Pred.C20.pred, Pred.C20.equal, Pred.C20.disjoint,
+    Pred.C20.independent, Bool.and_eq_true, beq_self_eq_true, and_true]
+  exact ⟨⟨⟨⟨h.1.1.1.1.1.1.1.1, h.1.1.1.1.1.1.2⟩, h.1.1.1.1.1.2⟩, h.1.2⟩, h.2⟩
+
 /-- `c20.clone  <packet> payloadOffset <nils> <mut> <onClone>
       => marshal0 <clone side> <nils> clonePO ovPayload ovCsrc ovExtArr ovExtPl
          <hclone header> hRaw <hnils> hPO hovCsrc hovExtArr hovExtPl <other side> otherMarshal
@@ -69,7 +92,7 @@ def c20clone : Handler :=
                 ovExtPl := o4, hclone := hc, hRaw := hr, hNils := hn, hovCsrc := h1, hovExtArr := h2,
                 hovExtPl := h3, other := ot, otherMarshal := om } : Pred.C20.Obs))
     Pred.C20.modelObs
-    Pred.C20.pred
+    c20predR
     (fun x => Pred.C01.wfP x.p)
 
 
